@@ -12,6 +12,7 @@ import (
 	"crypto/x509"
 	"crypto/x509/pkix"
 	"encoding/asn1"
+	"encoding/base64"
 	"encoding/json"
 	"fmt"
 	"io"
@@ -19,6 +20,7 @@ import (
 	"net"
 	"net/http"
 	"net/http/httptest"
+	"net/url"
 	"os"
 	"strings"
 	"sync"
@@ -26,9 +28,13 @@ import (
 
 	"github.com/rs/zerolog"
 	"github.com/sassoftware/relic/v8/config"
+	"github.com/sassoftware/relic/v8/lib/audit"
+	"github.com/sassoftware/relic/v8/lib/certloader"
 	"github.com/sassoftware/relic/v8/lib/pkcs7"
 	"github.com/sassoftware/relic/v8/lib/pkcs9"
 	"github.com/sassoftware/relic/v8/lib/pkcs9/tsclient"
+	"github.com/sassoftware/relic/v8/signers"
+	_ "github.com/sassoftware/relic/v8/signers/cosign"
 
 	"verif/harness/internal/certs"
 	"verif/harness/internal/cmsx"
@@ -376,6 +382,72 @@ func replayOne(r *res.Result, w *world, b *beh, n int) {
 	}
 }
 
+// cosignBinding: the cosign signer attaches its timestamp in its own way (an annotation next to the signature annotation):
+// the token must attest the signature VALUE (the decoded annotation), under the hash of the request. Judged by the harness's
+// own reading of the token, not by the signer's self-check.
+func cosignBinding(r *res.Result, w *world) {
+	mod := signers.ByName("cosign")
+	if mod == nil {
+		return
+	}
+	var order []int
+	var omu sync.Mutex
+	t := &tsa{id: w.tsas[0], b: "valid", order: &order, omu: &omu, idx: 1}
+	srv := httptest.NewServer(t)
+	defer srv.Close()
+	cl, err := tsclient.New(&config.TimestampConfig{Timeout: 5, URLs: []string{srv.URL}})
+	if err != nil {
+		panic(err)
+	}
+	key := map[string]string{"engine": "timestamp", "class": "cosign-binding"}
+	manifest := []byte(`{"schemaVersion":2,"mediaType":"application/vnd.oci.image.manifest.v1+json","config":{"mediaType":"application/vnd.oci.image.config.v1+json","digest":"sha256:44136fa355b3678a1146ad16f7e8649e94fb4fc21fe77e8310c060f61caaff8a","size":2},"layers":[]}`)
+	for _, h := range []crypto.Hash{crypto.SHA256, crypto.SHA384} {
+		cert := &certloader.Certificate{Leaf: w.signer.Cert, Certificates: []*x509.Certificate{w.signer.Cert}, PrivateKey: w.signer.Key, Timestamper: cl, KeyName: "k"}
+		flags, _ := mod.FlagsFromQuery(url.Values{})
+		opts := signers.SignOpts{Hash: h, Time: time.Now(), Flags: flags, Audit: audit.New("k", "cosign", h)}
+		opts = opts.WithContext(context.Background())
+		out, err := mod.Sign(bytes.NewReader(manifest), cert, opts)
+		r.Eval(true)
+		if err != nil {
+			r.Fail(key, nil, "cosign with a working authority (%v): signing fails: %v", h, err)
+			continue
+		}
+		var m struct {
+			Layers []struct {
+				Annotations map[string]string `json:"annotations"`
+			} `json:"layers"`
+		}
+		if json.Unmarshal(out, &m) != nil || len(m.Layers) != 1 {
+			r.Fail(key, nil, "cosign output is not the expected manifest: %.200s", out)
+			continue
+		}
+		an := m.Layers[0].Annotations
+		rawSig, e1 := base64.StdEncoding.DecodeString(an["dev.cosignproject.cosign/signature"])
+		rawTok, e2 := base64.StdEncoding.DecodeString(an["dev.sigstore.cosign/rfc3161timestamp"])
+		if e1 != nil || e2 != nil || len(rawSig) == 0 || len(rawTok) == 0 {
+			r.Fail(key, nil, "cosign (%v): signature or timestamp annotation missing (%v, %v)", h, e1, e2)
+			continue
+		}
+		tok, err := pkcs7.Unmarshal(rawTok)
+		if err != nil {
+			r.Fail(key, nil, "cosign (%v): the timestamp annotation is not a token: %v", h, err)
+			continue
+		}
+		content, _ := tok.Content.ContentInfo.Bytes()
+		d := h.New()
+		d.Write(rawSig)
+		if !bytes.Contains(content, d.Sum(nil)) {
+			r.Fail(key, nil, "cosign (%v): the attached token does not attest the signature value (its imprint is not the %v digest of the decoded signature annotation)", h, h)
+			continue
+		}
+		if _, err := pkcs9.Verify(tok, rawSig, nil); err != nil {
+			r.Fail(key, nil, "cosign (%v): the attached token does not verify against the signature value: %v", h, err)
+			continue
+		}
+		r.Count("cosign_bound", 1)
+	}
+}
+
 func sha256Of(b []byte) []byte {
 	d := sha256.Sum256(b)
 	return d[:]
@@ -413,6 +485,7 @@ func Replay(path string, par int) {
 		}(n)
 	}
 	wg.Wait()
+	cosignBinding(r, w)
 	r.Extra["behaviours_read"] = n
 	r.Emit()
 }
